@@ -46,7 +46,7 @@ ASSUMPTIONS = ['a workbook written by openpyxl stands for "readable workbook"',
                'structural member failures = SyntaxError, NameError, RecursionError, AttributeError on the generated instance, TypeError '
                'about the number of positional arguments; every other exception of a member is data-dependent and not judged here',
                f'bounded progress: {STEP_BUDGET} PY_START events per translation + {PER_CELL} per cell the translation registers']
-FLOORS = {'quick': {'evaluations': 6000, 'nontrivial': 3000, 'counters': {'translations_under_budget': 4000, 'members_called': 3000, 'file_vs_object': 500, 'two_executor_sessions': 30}},
+FLOORS = {'quick': {'evaluations': 6000, 'nontrivial': 3000, 'counters': {'translations_under_budget': 4000, 'members_called': 3000, 'file_vs_object': 500, 'two_executor_sessions': 30, 'scaling_pairs_timed': 6}},
           'thorough': {'evaluations': 150000, 'nontrivial': 60000, 'counters': {'translations_under_budget': 100000, 'members_called': 60000, 'file_vs_object': 10000}}}
 
 LEX = (list(c05.ARITY) + ['FOO', 'sum', 'If', 'TEXT', 'NOW', 'PI'])
@@ -59,12 +59,15 @@ DEGENERATE = ['=', '==', '=()', '=(', '=)', '=-', '=+', '=%', '=""', '="', "='",
               '=1.', '=.5', '=1..2', '=1,2', '=A1 A2', '=((((((1))))))', '=-(-(-1))', '=1++2', '=1--2', '=1+-+-2', '=SUM()', '=SUM(,)', '=SUM(1,)', '=IF(,,)',
               '=IF()', '=IF(1)', '=IFS()', '=IFS(1)', '=SUM', '=SUM(', '=SUM)', '=SUM(A1', '=SUM A1)', '=(SUM)(1)', '=SUM((1,2))', '=SUM(A1:B2 B2:C3)', '=A1:B2:C3',
               '=1%%', '=%1', '=1%2', '=(1)(2)', '=1(2)', '="a"1', '=1"a"', '="a""', '=""""', '=&', '=A1&', '=&A1', '=<>', '=A1<>', '=1<2<3', '=1=1=1',
-              '= 1', '=\n1', '=1\n', '=1 ', '=\t', '= ', '=COLUMN(1)', '=COLUMN("a")', '=COLUMN(A1:B2:C3)', '=COUNT(-1)', '=COUNT((1))', '=COUNT()', '=XMATCH(1,A1:A3)',
+              '= 1', '=\n1', '=1\n', '=1 ', '=\t', '= ', '=COLUMN(1)', '=COLUMN("a")', '=COLUMN(XFE1)', '=COLUMN(SUMB3)', '=COLUMN(ZZZZ1)', '=COLUMN(Nope!B3)', "=COLUMN('No pe'!$B$3)", '=COLUMN(XFE1:XFF2)', '=SUM(COLUMN(SUMB3),1)', '=COLUMN(A1:B2:C3)', '=COUNT(-1)', '=COUNT((1))', '=COUNT()', '=XMATCH(1,A1:A3)',
               '=MATCH(1,A1:A3)', '=INDEX(A1:B2)', '=INDEX(A1:B2,)', '=VLOOKUP(1,A1:B2)', '=ADDRESS(1)', '=DATE(1,2)', '=TODAY(1)', '=LEFT()', '=MID("a",1)',
               '=SEARCH("a")', '=SUMIF(A1:A3)', '=SUMIF(A1:A3,)', '=SUMIFS(A1:A3,A1:A3)', '=COUNTIFS(A1:A3)', '=AVERAGEIFS(A1:A3)', '=NETWORKDAYS(A1)',
               '=DATEDIF(A1,A2)', '=ROUND(1)', '=IFERROR(1)', '=IFERROR(,)', '=SUM(1;2,3)', '=SUM(1,,2)', '=IF(1>0;2,3)', '=TRUEA1', '=FALSE1', '=TRUE1',
               "='S2'!A1:'S2'!B2", '=S2!A1:S2!B2', '=S2!A1:B2', "='S2'A1", "=S2'!A1", '=A1!B2', '=1!A1', '=-A1:A3', '=A1:A3%', '=A1:A3+1', '=(A1:A3)', '=SUM((A1:A3))',
-              '=SUM(A1:A3)(1)', '=1e400', '=1e-400', '=1e30007', '=1.5e400', '=2e308', '=1e309', '=9.9e999', '=99999999999999999999', '=0.' + '1' * 400, '="' + 'x' * 5000 + '"', '=A' * 50, '=' + '-' * 60 + '1',
+              '=SUM(A1:A3)(1)', '=1e400', '=1e-400', '=1e30007', '=1.5e400', '=2e308', '=1e309', '=9.9e999', '=99999999999999999999', '=0.' + '1' * 400, '="' + 'x' * 5000 + '"',
+              # literals with more digits than int() is willing to read (mantissa, fraction, exponent), wildcard texts without their closing quote
+              '=' + '9' * 4301, '=' + '1' * 5000 + '+1', '=0.' + '3' * 4400, '=1e' + '9' * 5000, '=1.5e-' + '9' * 4400, '=SUM(1,' + '7' * 4305 + ')',
+              '="' + '*' * 300, '="' + '?*' * 150, '=COUNTIFS(A1:A3,"' + '*' * 200 + ')', '="~*' + '*?' * 100, '=A' * 50, '=' + '-' * 60 + '1',
               '=' + '(' * 80, '=' + ')' * 80, '=' + '"' * 7, '=SUM(' * 30, '=' + 'IF(' * 20 + '1' + ',2,3)' * 19]
 
 
@@ -340,7 +343,12 @@ def whole_book(ctx, bi):
     # every book writes a file of the SAME name into a directory of its own, every second one through a path relative to the current
     # directory: a loader that remembers modules by file name, or a writer that resolves the path differently, mixes the books up
     os.makedirs(os.path.join(ctx.workdir, name + '_d'), exist_ok=True)
-    fpath = os.path.join(ctx.workdir, name + '_d', 'excel_in_python.py')
+    # ... under any file name: a class file is a text file with Python in it, whatever its name ends in
+    fname = ['excel_in_python.py', 'excel_in_python.py', 'translated_class', 'model.txt', 'my model.py', 'модель.py', 'class.v2.py', 'excel_in_python.PY'][bi % 8]
+    if not fname.isascii() and sys.getfilesystemencoding().lower() not in ('utf-8', 'utf8'):
+        fname = 'excel_in_python.py'      # the interpreter itself cannot name such a file (ASCII locale shard): not the library's business
+    r.count('class_file_name:' + ('.py' if fname.endswith('.py') else 'other suffix'))
+    fpath = os.path.join(ctx.workdir, name + '_d', fname)
     if bi % 2:
         fpath = os.path.relpath(fpath)
         r.count('class_files_by_relative_path')
@@ -458,6 +466,67 @@ def rewrite_same_second(ctx):
                got, [2, 3, 8], monitor='file-vs-object')
 
 
+SCALING_FAMILIES = {
+    'unclosed wildcard text': lambda n: '="' + '*' * n,
+    'unclosed ?* text': lambda n: '="' + '?*' * (n // 2),
+    'unclosed wildcard text in a criterion': lambda n: '=COUNTIFS(A1:A3,"' + '*' * n + ')',
+    'closed wildcard text': lambda n: '="' + '*' * n + '"',
+    'tilde wildcard mix, unclosed': lambda n: '="' + '~*?' * (n // 3),
+    'quotes and wildcards': lambda n: '=' + '"*"&' * (n // 4) + '"*',
+}
+_SCALE_SCRIPT = r"""
+import sys, time, os, tempfile
+from vf import pipeline, wbspec
+text = eval(sys.argv[1])
+d = tempfile.mkdtemp(dir=sys.argv[2])
+path = wbspec.write(wbspec.spec(wbspec.sheet('S', {'A1': 1, 'A2': 2, 'A3': 3, 'F1': text})), os.path.join(d, 'b.xlsx'))
+t0 = time.perf_counter()
+t = pipeline.translate(path, entry=pipeline.entry_cell('S', 'F1'))
+print('ELAPSED', time.perf_counter() - t0, t.kind)
+"""
+
+
+def run_scaling(ctx):
+    """translation TERMINATES: one call into the regex engine cannot be watched by the step budget (it is a single Python step), so
+    texts that make a pattern with overlapping repeats split them in polynomially many ways are timed in a process of their own at two
+    sizes.  Verdict by growth, not by a deadline: refusing / translating a text of 2n characters more than 3.2 times slower than one of n
+    AND slower than 4 s is a hang in the making (linear: 2x per doubling, quadratic 4x, cubic 8x); a process killed at the 90 s watchdog with a fast small
+    size counts the same; anything else slow is inconclusive (a loaded machine), never a violation."""
+    import subprocess
+    import sys
+    r = ctx.r
+    n1, n2 = (1500, 3000) if ctx.tier == 'quick' else (2500, 5000)
+    env = dict(os.environ, PYTHONPATH=os.path.dirname(os.path.dirname(os.path.dirname(os.path.abspath(__file__)))))
+
+    def timed(text):
+        try:
+            c = subprocess.run([sys.executable, '-c', _SCALE_SCRIPT, repr(text), ctx.workdir], env=env, capture_output=True, text=True, timeout=90)
+        except subprocess.TimeoutExpired:
+            return 90.0, 'killed by the watchdog'
+        for line in c.stdout.splitlines():
+            if line.startswith('ELAPSED'):
+                return float(line.split()[1]), line.split()[2]
+        return None, (c.stderr or c.stdout)[-300:]
+
+    for fam, mk in SCALING_FAMILIES.items():
+        t1, k1 = timed(mk(n1))
+        t2, k2 = timed(mk(n2))
+        r.ev(2)
+        r.count('scaling_pairs_timed')
+        if t1 is None or t2 is None:
+            r.count('scaling_pairs_without_a_time')
+            continue
+        r.nt(('scaling', fam))
+        r.counters['scaling_slowest_ms'] = max(r.counters.get('scaling_slowest_ms', 0), int(t2 * 1000))
+        if t2 > 4.0 and t2 > 3.2 * max(t1, 0.05):
+            report(r, ID, None, {'text': mk(40) + ' ... (%d and %d characters)' % (n1, n2), 'how': 'scaling:' + fam, 'family': fam},
+                   {'seconds_n': round(t1, 3), 'seconds_2n': round(t2, 3), 'outcome': k2}, 'time that grows about linearly with the length of the text',
+                   monitor='translation-time-superlinear')
+        elif t2 > 30:
+            r.count('scaling_pairs_slow_but_linear')
+    r.sample({'scaling_families': list(SCALING_FAMILIES), 'sizes': [n1, n2]})
+
+
 def plan(tier, seed):
     q = tier == 'quick'
     sh = [{'kind': 'degenerate'}] + [{'kind': 'nest', 'max': 24 if q else 64, 'part': p, 'parts': 8} for p in range(8)]
@@ -472,6 +541,7 @@ def plan(tier, seed):
     # encoding is not UTF-8: what is written and what is read back must not depend on it
     # ... and in an interpreter that writes bytecode files, as most programs do (the harness itself runs with PYTHONDONTWRITEBYTECODE)
     sh.append({'kind': 'whole', 'n': 4 if q else 40, 'k': 200, '_env': {'VERIF_WRITE_BYTECODE': '1'}})
+    sh.append({'kind': 'scaling'})
     for k in range(2 if q else 4):
         sh.append({'kind': 'whole', 'n': 6 if q else 60, 'k': 100 + k, 'ascii_locale': True,
                    '_env': {'LC_ALL': 'C', 'LANG': 'C', 'PYTHONUTF8': '0', 'PYTHONCOERCECLOCALE': '0'}})
@@ -552,6 +622,8 @@ def run_shard(shard, ctx):
         judge_formulas(ctx, items, 'soup')
         if shard['k'] == 0:
             r.sample({'soups': [t for t, h in items if h == 'soup'][:8], 'splices': [t for t, h in items if h == 'splice'][:5]})
+    elif k == 'scaling':
+        run_scaling(ctx)
     elif k == 'whole':
         rewrite_same_second(ctx)
         for i in range(shard['n']):
